@@ -25,3 +25,7 @@ claim('C22', 'CFG adjacency/ordering rules (nearest-call-before/after) on backen
 claim('C02', 'sparse conditional constant propagation with a known-bits (per-bit boolean function) domain over the accessor CFGs, at every point of a guard-derived finite lattice; CFG dominance for the reject path',
       'Decides the mask, range-constant, shift-safety and masked-merge clauses of both bit-field accessors for every (signedness, storage size, width, shift) the struct builder admits — the lattice is derived by evaluating the builder\'s own dominating guards and must equal 1..8*size — plus a store-free OverflowError reject path and the routing of shifted fields to the accessors. Exhaustive over widths (all 1..64) and, in the thorough tier, over all shifts: the full-width 64-bit defect was found this way and repaired (fix: 560e916).',
       'Does not decide the arithmetic sign-extension identity of the signed read (outside the bit domain), agreement with compiled C accessors, or the MSVC layout branch; assumes LP64 little-endian and wrapping signed arithmetic; a full-width field delegated to the plain integer conversion relies on C03.')
+
+claim('C03', 'constant folding of dominating comparison bounds; must-pass-edge CFG queries; cross-table agreement (export slots vs macros of both headers, names and function types); folding of the sizeof/signedness dispatch on the clang AST of generated wrappers',
+      'Decides that each of the eight API-mode converters accepts exactly the N-bit range (bounds recovered from the facts dominating `return tmp`), the _Bool converter exactly {0,1}; that every integer store through `data` in convert_from_object is reachable only past the round-trip comparison of matching signedness (or the _Bool test) whose firing side raises OverflowError and stores nothing; strict-flag literals per caller; slot-by-slot agreement of cffi_exports[] with _cffi_include.h and the verify() header; that _cffi_to_c_int/_cffi_from_c_int fold to the converter of the argument type for every generated wrapper argument of the probe corpus, each followed by the error test; and that the callback result widening is dominated by the range check. Finite and exhaustive over converters, slots and type names.',
+      'Does not decide that read-back returns v (memcpy semantics assumed), nor stores through dlsym-ed global addresses separately; generated code is checked for the probe corpus (all standard and stdint integer types).')
